@@ -1,9 +1,9 @@
-(* Tie/Nuget.v — the generated translation of pkg/ecosystem/nuget (Gen/Code/Nuget.v) against the
-   model (Eco/Nuget).  comparePrerelease is outside the translated fragment: Version.Compare is tied
-   generically in it (a Section variable of the generated code). *)
+(* Tie/Nuget.v — VERSION level: the generated translation of pkg/ecosystem/nuget
+   (Gen/Code/Nuget.v) against the model (Eco/Nuget/Version).  comparePrerelease (loop) is outside the
+   translated fragment: Compare is tied generically in it.  The range-level ties are in
+   Tie/NugetRange.v (which depends on this file, never the other way round). *)
 From Coq Require Import ZArith List Bool Lia.
 From Verif.Base Require Import Bytes GoNum GoOps Ord.
-From Verif.Eco Require Import RangeCore.
 From Verif.Eco.Nuget Require Version.
 From Verif.Gen.Code Require Nuget.
 From Verif.Tie Require Import Tactics.
@@ -35,28 +35,5 @@ Section Compare.
   Theorem tie_nuget_compare : forall a b,
     G.Version_Compare comparePrerelease a b = Z_of_cmp (M.cmp_core (abs a) (abs b)).
   Proof. tie_solve_with comparePrerelease_model. Qed.
-
-  (* range: the operator switch, for any Compare (it stays folded) *)
-  Local Opaque G.Version_Compare.
-  Theorem tie_nuget_matches : forall c v,
-    G.constraint_matches comparePrerelease c v =
-    sat (sem6 (G.constraint_operator c)) (cmp_of_Z (G.Version_Compare comparePrerelease v (G.constraint_version c))).
-  Proof. tie_solve. Qed.
-
-  Corollary tie_nuget_matches_model : forall c v,
-    G.constraint_matches comparePrerelease c v =
-    sat (sem6 (G.constraint_operator c)) (M.cmp_core (abs v) (abs (G.constraint_version c))).
-  Proof. intros. rewrite tie_nuget_matches, tie_nuget_compare, cmp_of_Z_of_cmp. reflexivity. Qed.
-
-  Theorem tie_nuget_contains : forall r v,
-    G.VersionRange_Contains comparePrerelease r v =
-    forallb (fun c => sat (sem6 (G.constraint_operator c)) (M.cmp_core (abs v) (abs (G.constraint_version c))))
-            (G.VersionRange_constraints r).
-  Proof.
-    intros. unfold G.VersionRange_Contains. apply forallb_ext_in. intros c _. apply tie_nuget_matches_model.
-  Qed.
 End Compare.
 Print Assumptions tie_nuget_compare.
-Print Assumptions tie_nuget_matches.
-Print Assumptions tie_nuget_matches_model.
-Print Assumptions tie_nuget_contains.
